@@ -1129,8 +1129,13 @@ func (u *Unit) callByContract(c *ast.CallExpr, fi *FuncInfo, blk *Block, recv *V
 				if i < len(c.Args) && i < sig.Params().Len() {
 					at := u.Info.TypeOf(c.Args[i])
 					if sig.Variadic() && i == sig.Params().Len()-1 && at != nil {
-						// the packed variadic slice has the element type of the arguments
-						at = types.NewSlice(at)
+						// the packed variadic slice has the element type of the arguments - when the elements are represented the
+						// same way as the callee's generic element type (the slice itself was packed at the callee's type)
+						if gs, ok := sig.Params().At(i).Type().(*types.Slice); ok && u.sortOf(gs.Elem()) == u.sortOf(at) {
+							at = types.NewSlice(at)
+						} else {
+							at = nil
+						}
 					}
 					if at != nil {
 						if v, ok := scope[n.Name]; ok {
